@@ -72,6 +72,9 @@ type Prop struct {
 	Post func(d *Driver, m *Merged)
 	// Env returns extra environment for workers.
 	Env func(tier string) []string
+	// NoReturnIsViolation: a case stopped by the watchdog or by the heap guard is a
+	// violation ("does not return" / "allocates without bound") instead of inconclusive.
+	NoReturnIsViolation bool
 }
 
 var registry = map[string]*Prop{}
@@ -202,6 +205,16 @@ func (w *W) End(r Result) {
 	w.writeLine(map[string]any{"e": r})
 }
 
+// Note records progress inside the current case; it is written out if the worker is
+// stopped by the watchdog or dies, so the offending sub-case can be identified.
+func (w *W) Note(at any) {
+	w.curMu.Lock()
+	if w.cur != nil {
+		w.cur.Sample = at
+	}
+	w.curMu.Unlock()
+}
+
 // Held is shorthand for End with a held verdict.
 func (w *W) Held(dkeys []string, sample any) {
 	w.End(Result{Verdict: Held, DKeys: dkeys, Sample: sample})
@@ -254,7 +267,7 @@ func (w *W) abort(reason string, code int) {
 	if cur != nil {
 		// written through a separate descriptor write: the main goroutine may be mid-write,
 		// so emit a full line on its own with O_APPEND semantics.
-		b, _ := json.Marshal(map[string]any{"abort": reason, "i": cur.Idx, "case": cur.Case, "replay": cur.Replay})
+		b, _ := json.Marshal(map[string]any{"abort": reason, "i": cur.Idx, "case": cur.Case, "replay": cur.Replay, "at": cur.Sample})
 		w.outF.Write(append(append([]byte("\n"), b...), '\n'))
 	}
 	os.Exit(code)
